@@ -185,7 +185,14 @@ impl<'a> Gen<'a> {
     /// different lead bytes, string alternatives, small classes, literal prefixes.
     fn prefix_term(&mut self) -> Node {
         let partners: &[u32] = &['k' as u32, 'K' as u32, 0x212A, 's' as u32, 'S' as u32, 0x17F, 0xE9, 0xC9, 0xDF, 0x1E9E, 0x10400, 0x10428, 0x3C3, 0x3A3, 'a' as u32];
-        match self.rng.below(6) {
+        match self.rng.below(8) {
+            // a class whose members start with many different UTF-8 lead bytes, none of them ASCII
+            6 | 7 => {
+                const WIDE: &[(u32, u32)] = &[(0x400, 0x4FF), (0x370, 0x5FF), (0x100, 0x17F), (0x3040, 0x30FF), (0x80, 0x7FF), (0x800, 0xFFFF), (0x10000, 0x10FFFF), (0x1F600, 0x1F64F), (0xC0, 0x24F)];
+                let n = self.rng.range(1, 3);
+                let items: Vec<ClassItem> = (0..n).map(|_| { let (a, b) = *self.rng.pick(WIDE); ClassItem::R(a, b) }).collect();
+                if self.flags.v { Node::VClass(false, VExpr::Union(items)) } else { Node::Class(false, items) }
+            }
             0 if self.flags.v => {
                 let n = self.rng.range(1, 3);
                 let mut strs = vec![];
@@ -286,7 +293,12 @@ impl<'a> Gen<'a> {
     }
 
     fn quantifier(&mut self, body: Node) -> Node {
-        let (min, max) = match self.rng.below(12) {
+        let (min, max) = match self.rng.below(16) {
+            // around and above the optimizer's unrolling threshold
+            12 => (6, Some(8)),
+            13 => (5, Some(6)),
+            14 => (6, None),
+            15 => (7, Some(7)),
             0 => (0, None),
             1 => (1, None),
             2 => (0, Some(1)),
@@ -423,6 +435,16 @@ impl<'a> Gen<'a> {
                 let n = self.rng.range(1, 3);
                 let mut strs = vec![];
                 for _ in 0..n {
+                    // a small pool of strings in several case variants, so that the same string (up to
+                    // case) turns up in different operands of one class set expression
+                    if self.rng.chance(1, 3) {
+                        const POOL: &[&[u32]] = &[
+                            &[0x61, 0x62], &[0x41, 0x42], &[0x61, 0x42], &[0x6B, 0x4B], &[0x212A, 0x6B], &[0x17F, 0x73], &[0x53, 0x73],
+                            &[0xE9, 0x61], &[0xC9, 0x41], &[0x10428, 0x61], &[0x10400, 0x41],
+                        ];
+                        strs.push(self.rng.pick(POOL).to_vec());
+                        continue;
+                    }
                     let l = [0, 1, 2, 2, 3][self.rng.below(5)];
                     let mut s = vec![];
                     for _ in 0..l {
@@ -970,7 +992,14 @@ fn swap_case(c: u32, rng: &mut Rng) -> u32 {
 fn sample_item(it: &ClassItem, rng: &mut Rng, out: &mut Vec<u32>) {
     match it {
         ClassItem::C(c) => out.push(*c),
-        ClassItem::R(a, b) => out.push(if rng.chance(1, 2) { *a } else { *b }),
+        ClassItem::R(a, b) => out.push(match rng.below(3) {
+            0 => *a,
+            1 => *b,
+            _ => {
+                let c = *a + rng.below((*b - *a + 1) as usize) as u32;
+                if char::from_u32(c).is_some() { c } else { *a }
+            }
+        }),
         ClassItem::Esc(x) => out.push(match x {
             'd' => '0' as u32,
             'w' => 'a' as u32,
@@ -1086,7 +1115,16 @@ pub fn haystacks(n: &Node, f: Flags, rng: &mut Rng, count: usize) -> Vec<Vec<u32
                 if k % 4 == 1 && !h.is_empty() {
                     // mutate
                     let i = rng.below(h.len());
-                    match rng.below(4) {
+                    match rng.below(5) {
+                        4 => {
+                            // a character that aliases h[i] when truncated to 8 or 16 bits, or U+0000
+                            let c = h[i];
+                            let cand = [0x10000 + (c & 0xFFFF), 0x20000 + (c & 0xFFFF), 0x100 + (c & 0xFF), 0x4E00 + (c & 0xFF), 0];
+                            let a = *rng.pick(&cand);
+                            if char::from_u32(a).is_some() {
+                                h[i] = a;
+                            }
+                        }
                         0 => {
                             h.remove(i);
                         }
